@@ -11,10 +11,10 @@ from .values import OutsideSubset
 VERIF = api.VERIF
 PROP_MODULES = {
     "C01": ["contracts.c01", "contracts.c01b", "contracts.c01_bounded", "contracts.c15", "contracts.c18", "contracts.c02"],
-    "C02": ["contracts.c02", "contracts.c02_bounded", "contracts.c15"],
+    "C02": ["contracts.c02", "contracts.c02_bounded", "contracts.c15", "contracts.c12"],
     "C03": ["contracts.c03", "contracts.c03_bounded", "contracts.c06", "contracts.c05c"],
     "C04": ["contracts.c04", "contracts.c05", "contracts.c03"],
-    "C05": ["contracts.c05", "contracts.c05c", "contracts.c05_bounded", "contracts.c05_fields_bounded"],
+    "C05": ["contracts.c05", "contracts.c05c", "contracts.c05_bounded", "contracts.c05_fields_bounded", "contracts.c06", "contracts.c15"],
     "C11": ["contracts.c11", "contracts.c09", "contracts.c11_bounded", "contracts.c02", "contracts.c06b"],
     "C19": ["contracts.c19", "contracts.c19b", "contracts.c19_bounded", "contracts.c02", "contracts.c15"],
     "C12": ["contracts.c12", "contracts.c12b", "contracts.c12c", "contracts.c12_bounded", "contracts.c10", "contracts.c13c"],
@@ -26,8 +26,8 @@ PROP_MODULES = {
     "C15": ["contracts.c15", "contracts.c13", "contracts.c08", "contracts.c08b", "contracts.c10", "contracts.c17", "contracts.c14", "contracts.c12", "contracts.c15_bounded"],
     "C16": ["contracts.c16", "contracts.c16_bounded", "contracts.c13c"],
     "C09": ["contracts.c09", "contracts.c09_bounded", "contracts.c08", "contracts.c10b", "contracts.c06b"],
-    "C10": ["contracts.c10", "contracts.c10b", "contracts.c10_bounded"],
-    "C17": ["contracts.c17", "contracts.c05", "contracts.c05c", "contracts.c17_bounded"],
+    "C10": ["contracts.c10", "contracts.c10b", "contracts.c10_bounded", "contracts.c09"],
+    "C17": ["contracts.c17", "contracts.c05", "contracts.c05c", "contracts.c17_bounded", "contracts.c08b"],
     "C18": ["contracts.c18", "contracts.c18_bounded"],
 }
 
@@ -36,14 +36,15 @@ PROP_MODULES = {
 # they cover (the property statement is end-to-end; a change in a dependency breaks it too)
 RELATED = {
     "C01": ["contracts.c03", "contracts.c03_bounded", "contracts.c04", "contracts.c05", "contracts.c05c", "contracts.c18", "contracts.c18_bounded", "contracts.c02", "contracts.c02_bounded", "contracts.c05_fields_bounded"],
+    "C02": ["contracts.c11_bounded"],
     "C03": ["contracts.c05"],
     "C04": ["contracts.c12"],
     "C05": ["contracts.c01b"],
     "C06": ["contracts.c03", "contracts.c05"],
     "C08": ["contracts.c13", "contracts.c13b", "contracts.c14"],
     "C09": ["contracts.c13"],
-    "C10": ["contracts.c08", "contracts.c12", "contracts.c13"],
-    "C12": ["contracts.c13", "contracts.c17"],
+    "C10": ["contracts.c08", "contracts.c12", "contracts.c13", "contracts.c09_bounded"],
+    "C12": ["contracts.c13", "contracts.c17", "contracts.c13_bounded"],
     "C17": ["contracts.c12", "contracts.c03_bounded", "contracts.c14"],
     "C15": ["contracts.c13_bounded"],
     "C18": ["contracts.c15", "contracts.c01", "contracts.c01b", "contracts.c05"],
